@@ -223,3 +223,70 @@ def angle_bisectors(ctx):
     rr, ss = tolist(r.array), tolist(s.array)
     ctx.ensure("through-the-vertex", ctx.conj([ctx.zero(dot(rr, v)), ctx.zero(dot(ss, v))]))
     ctx.ensure("mutually-perpendicular", ctx.zero(rr[0] * ss[0] + rr[1] * ss[1]))
+
+
+@case("C10", "constructions.3d.lattice", [], kind="bounded",
+      functions=["geometer.point.LineTensor.perpendicular", "geometer.point.LineTensor.mirror", "geometer.point.SubspaceTensor.project", "geometer.point.PlaneTensor.mirror",
+                 "geometer.point.PlaneTensor.basis_matrix", "geometer.point.SubspaceTensor.basis_matrix", "geometer.operators.is_perpendicular", "geometer.point.LineTensor.base_point"],
+      bound="3D: 10 lattice lines x 8 points (on and off the line) at 3 translated positions, 8 planes x 8 points, pairs of lines/planes with known (non-)orthogonal directions; "
+            "basis_matrix of 12 planes / 10 lines")
+def constructions_3d_lattice(ctx):
+    import geometer as g
+    from geometer.operators import is_perpendicular, dist
+
+    def unit(v):
+        v = np.asarray(v, dtype=float)
+        return v / np.linalg.norm(v)
+
+    def aff(p):
+        a = np.real_if_close(np.asarray(p.normalized_array, dtype=complex))
+        return np.real(a[:3])
+
+    dirs = [(1, 0, 0), (0, 1, 0), (1, 1, 0), (1, 1, 1), (1, -2, 2), (0, 3, 4), (2, 1, -1), (1, 2, 3), (-1, 1, 2), (3, 0, -1)]
+    offs = [(0, 0, 0), (3, -7, 2), (0, 0, 5)]
+    pts = [(1, 2, 3), (0, 0, 1), (-2, 1, 0), (4, 4, 4), (1, 0, -1), (0.5, 2, -3), (2, 2, 1), (-1, -1, 5)]
+    for d in dirs:
+        for o in offs:
+            l = g.Line(g.Point(*o), g.Point(*[x + y for x, y in zip(o, d)]))
+            u = unit(d)
+            bp = l.base_point
+            ctx.ensure("3d:base_point-on-the-line-and-finite", bool(l.contains(bp)) and abs(bp.array[-1]) > 1e-9, witness=dict(origin=o, direction=d))
+            bm = l.basis_matrix
+            ctx.ensure("3d:line-basis_matrix-orthonormal-rows-on-the-line", np.allclose(bm @ bm.T, np.eye(2), atol=1e-8) and all(bool(l.contains(g.Point(r))) for r in bm),
+                       witness=dict(origin=o, direction=d))
+            for p in pts:
+                P = g.Point(*p)
+                w = dict(origin=o, direction=d, point=p)
+                foot = np.array(o) + u * np.dot(np.array(p) - np.array(o), u)
+                on = np.linalg.norm(foot - np.array(p)) < 1e-9
+                pr = l.project(P)
+                ctx.ensure("3d:line-project-is-the-foot", np.allclose(aff(pr), foot, atol=1e-6), witness=dict(w, got=aff(pr).tolist(), want=foot.tolist()))
+                if not on:
+                    m = l.mirror(P)
+                    ctx.ensure("3d:line-mirror-is-the-point-reflection-at-the-foot", np.allclose(aff(m), 2 * foot - np.array(p), atol=1e-6),
+                               witness=dict(w, got=aff(m).tolist(), want=(2 * foot - np.array(p)).tolist()))
+                    pe = l.perpendicular(P)
+                    dd = aff(pe.meet(g.infty_plane)) if False else None
+                    q1 = pe.meet(l)
+                    ctx.ensure("3d:line-perpendicular-through-p-meets-the-line-at-the-foot", bool(pe.contains(P)) and np.allclose(aff(q1), foot, atol=1e-6), witness=w)
+    planes = [(0, 0, 1, -1), (1, 0, 0, 2), (1, 1, 0, 0), (1, 2, 2, -30), (1, -1, 2, 5), (2, 1, 2, -3), (0, 3, 4, 10), (1, 1, 1, -6), (3, 0, 4, 1), (1, 2, 3, 4), (-1, 0, 1, 7), (2, -2, 1, 0)]
+    for e in planes:
+        E = g.Plane(*e)
+        n = np.array(e[:3], dtype=float)
+        bm = E.basis_matrix
+        ctx.ensure("3d:plane-basis_matrix-orthonormal-rows-in-the-plane", np.allclose(bm @ bm.T, np.eye(3), atol=1e-8) and np.allclose(bm @ np.array(e, dtype=float), 0, atol=1e-8),
+                   witness=dict(plane=e, got=bm.tolist()))
+        for p in pts:
+            P = g.Point(*p)
+            s = (np.dot(n, p) + e[3]) / np.dot(n, n)
+            foot = np.array(p) - s * n
+            ctx.ensure("3d:plane-project-is-the-foot", np.allclose(aff(E.project(P)), foot, atol=1e-6), witness=dict(plane=e, point=p))
+            if abs(s) > 1e-9:
+                ctx.ensure("3d:plane-mirror", np.allclose(aff(E.mirror(P)), np.array(p) - 2 * s * n, atol=1e-6), witness=dict(plane=e, point=p, got=aff(E.mirror(P)).tolist()))
+    for d1, d2 in itertools.combinations(dirs, 2):
+        want = abs(np.dot(d1, d2)) < 1e-12
+        for o in offs:
+            l1 = g.Line(g.Point(*o), g.Point(*[x + y for x, y in zip(o, d1)]))
+            l2 = g.Line(g.Point(*o), g.Point(*[x + y for x, y in zip(o, d2)]))
+            ctx.ensure("3d:is_perpendicular(lines)", bool(is_perpendicular(l1, l2)) == want, witness=dict(origin=o, d1=d1, d2=d2, want=want))
+        ctx.ensure("3d:is_perpendicular(planes)", bool(is_perpendicular(g.Plane(*d1, 1), g.Plane(*d2, -4))) == want, witness=dict(n1=d1, n2=d2, want=want))
